@@ -92,3 +92,38 @@ Example div_pow2_examples :
   div_pow2_seq (2 ^ 63) 3 = Some (u64 (- 2 ^ 60)) /\ div_pow2_seq (2 ^ 64 - 1) 1 = Some 0 /\
   divs_pow2_seq (2 ^ 31) 30 = Some (u32 (-2)).
 Proof. repeat split. Qed.
+
+(* The integer instruction semantics of the reference interpreter (C01/InsnSem: int_val, int_br,
+   int_ovf, written from MIR.md for this property) coincides with the documented semantics that
+   property C02 uses as its oracle (Mir/DocSpecInt: doc_sem_int, doc_branch_int, doc_ovf, written from
+   MIR.md independently by another builder), for every integer value instruction, compare-and-branch
+   and overflow instruction and all source values reduced to the instruction's source kind - which is
+   how Sem.exec_val / exec_insn feed them (use_as).  Both say "undefined" in exactly the same cases
+   (division by zero, MIN / -1, shift counts outside the width). *)
+From MirV Require Import Mir.DocSpecInt C01.DocRefine.
+
+Theorem sem_int_insn_is_docspec : forall o ks kd xs,
+  val_op o = Some (ks, kd) -> fp_kind ks || fp_kind kd = false -> ovf_op o = false ->
+  Forall (in_kind ks) xs ->
+  int_val o xs = doc_sem_int o xs.
+Proof. exact int_val_eq_doc. Qed.
+Print Assumptions sem_int_insn_is_docspec.
+
+Theorem sem_int_branch_is_docspec : forall o k xs t,
+  br_op o = Some k -> fp_kind k = false -> Forall (in_kind k) xs ->
+  int_br o xs = Some t -> doc_branch_int o xs = Some t.
+Proof. exact int_br_refines_doc. Qed.
+Print Assumptions sem_int_branch_is_docspec.
+
+(* overflow instructions: the result and every flag the instruction defines are DocSpec's; the flag it
+   does not define (unsigned for MULO, signed for UMULO) is None for the interpreter, so a branch on it
+   is Stuck *)
+Theorem sem_int_ovf_is_docspec : forall o ks kd a b r fs fu,
+  val_op o = Some (ks, kd) -> ovf_op o = true ->
+  in_kind ks a -> in_kind ks b ->
+  int_val o [a; b] = Some r -> int_ovf o [a; b] = Some (fs, fu) ->
+  exists s u, doc_ovf o [a; b] = Some (r, s, u) /\
+              fs = (if fst (ovf_defined o) then Some s else None) /\
+              fu = (if snd (ovf_defined o) then Some u else None).
+Proof. exact int_ovf_refines_doc. Qed.
+Print Assumptions sem_int_ovf_is_docspec.
